@@ -28,6 +28,7 @@ inductive V
   | l (items : List (List (Str × Option Str)))   -- stage 3: the `content` list of an entry (one dict per content element)
   | nil                                -- stage 3: Python's None (`_save("summary", None)` after a mismatched `pop_content`)
   | b (x : Bool)                       -- stage 4: `guidislink`
+  | ref (i : Nat)                      -- stage 7: `author_detail` when it IS (the same object as) `authors[i]` of the same dict
 deriving DecidableEq, Repr
 
 /-- insertion-ordered dict -/
@@ -81,6 +82,8 @@ structure Core where
   hasContent : Bool := false          -- stage 3: `self.hasContent`
   guidislink : Bool := false          -- stage 4: `self.guidislink`
   isentrylink : Bool := false         -- stage 4: `self.isentrylink`
+  inauthor : Bool := false            -- stage 7: `self.inauthor`
+  incontributor : Bool := false       -- stage 7: `self.incontributor`
 deriving Repr
 
 structure MSt where
@@ -112,6 +115,7 @@ structure Ops where
   resolveOn : Bool := true                                 -- `self.resolve_relative_uris` (the effective per-call option, C18)
   sanitizeOn : Bool := true                                -- `self.sanitize_html`
   entities : Str → Option Str := fun _ => none             -- stage 6: `self.entities` (the safe entities of the DOCTYPE: M-doctype, C12)
+  emailMatch : Str → Option Str := fun _ => none           -- stage 7: `email_pattern.search(author)` → `group(0)`
 
 inductive Outcome
   | ok (s : MSt)
@@ -512,6 +516,7 @@ def truthy : Option V → Bool
   | some (.l xs) => !xs.isEmpty
   | some .nil => false
   | some (.b x) => x
+  | some (.ref _) => true
 
 def lset (d : List (Str × Option Str)) (k : Str) (v : Option Str) : List (Str × Option Str) :=
   if d.any (·.1 == k) then d.map (fun p => if p.1 == k then (k, v) else p) else d ++ [(k, v)]
@@ -597,13 +602,157 @@ def startEnclosure (c : Core) (attrsD : List (Str × Str)) : Core :=
   | some d1 => putContext c d1
   | none => putContext c (fset (contextD c) (S "enclosure") (.d (dropDecls a)))
 
+
+/-! #### stage 7: authors and contributors (`_start_author`, `_end_author`, `_start_name` / `_end_name`, `_start_email` / `_end_email`, `_start_url` / `_end_url`,
+`_start_contributor` / `_end_contributor`, `_save_author`, `_save_contributor`, `_sync_author_detail`, `_last_item`) -/
+
+abbrev Item := List (Str × Option Str)
+
+def truthyO : Option Str → Bool
+  | some x => !x.isEmpty
+  | none => false
+
+def iget (it : Item) (k : Str) : Option Str := (it.find? (·.1 == k)).bind (·.2)
+
+/-- the items of the list the parser keeps under `key`, when it still is a list (`_last_item`'s first test) -/
+def listOf (d : D) (key : Str) : Option (List Item) := match dget d key with | some (.l items) => some items | _ => none
+
+/-- `x[-1][k] = v` on the list under `key` (nothing when `_last_item` answers None) -/
+def setInLast (d : D) (key k : Str) (v : Option Str) : D :=
+  match listOf d key with
+  | some items => (match items.reverse with
+      | last :: before => dset d key (.l (before.reverse ++ [lset last k v]))
+      | [] => d)
+  | none => d
+
+/-- `x[i][k] = v` -/
+def setInNth (d : D) (key : Str) (i : Nat) (k : Str) (v : Option Str) : D :=
+  match listOf d key with
+  | some items => dset d key (.l (items.mapIdx fun j it => if j == i then lset it k v else it))
+  | none => d
+
+/-- `context.setdefault(key, []); context[key].append({})`; none when the value is not a list (AttributeError inside the handler) -/
+def appendEmpty (d : D) (key : Str) : Option D :=
+  match dget d key with
+  | some (.l items) => some (dset d key (.l (items ++ [[]])))
+  | none => some (dset d key (.l [[]]))
+  | some _ => none
+
+/-- the string surgery of `_sync_author_detail` around the matched e-mail address -/
+def stripAuthor (author email : Str) : Str :=
+  let a1 := stripS (replaceAll (S "&lt;&gt;") [] (replaceAll (S "<>") [] (replaceAll (S "()") [] (replaceAll email [] author))))
+  let a2 := match a1 with | '(' :: r => r | r => r
+  let a3 := if a2.getLast? == some ')' then a2.dropLast else a2
+  stripS a3
+
+/-- `_sync_author_detail()` (key = "author") on the current context dict -/
+def syncAuthor (o : Ops) (d : D) : D :=
+  let lastIdx : Option (Nat × Item) := match listOf d (S "authors") with
+    | some items => (match items.reverse with | last :: _ => some (items.length - 1, last) | [] => none)
+    | none => none
+  match lastIdx with
+  | some (_, last@(_ :: _)) =>
+    -- the last author dict has entries: the author string is rebuilt from it
+    let name := iget last (S "name"); let email := iget last (S "email")
+    if truthyO name && truthyO email then fset d (S "author") (.s (name.getD [] ++ S " (" ++ email.getD [] ++ S ")"))
+    else if truthyO name then fset d (S "author") (.s (name.getD []))
+    else if truthyO email then fset d (S "author") (.s (email.getD []))
+    else d
+  | other =>
+    -- no author dict yet, or an EMPTY one (the one `_start_author` appended): the author string is taken apart; the dict that receives the parts is that empty
+    -- dict itself — which then also becomes `author_detail` when there is none (`.ref`) — or a fresh one
+    match dget d (S "author") with
+    | some (.s author) =>
+      if author.isEmpty then d else
+      let email : Option Str := o.emailMatch author
+      let a' : Str := match email with | some e => stripAuthor author e | none => author
+      let d1 := if (!a'.isEmpty || email.isSome) && (dget d (S "author_detail")).isNone then
+          (match other with
+           | some (i, _) => dset d (S "author_detail") (.ref i)
+           | none => dset d (S "author_detail") (.det ((if a'.isEmpty then [] else [(S "name", some a')]) ++ (match email with | some e => [(S "email", some e)] | none => []))))
+        else d
+      (match other with
+       | some (i, _) =>
+         let d2 := if a'.isEmpty then d1 else setInNth d1 (S "authors") i (S "name") (some a')
+         (match email with | some e => setInNth d2 (S "authors") i (S "email") (some e) | none => d2)
+       | none => d1)
+    | _ => d
+
+/-- `_save_author(key, value)` (prefix "author") -/
+def saveAuthor (o : Ops) (d : D) (k : Str) (v : Option Str) : D :=
+  -- detail = context.setdefault("author_detail", {}); a non-dict value is replaced by a fresh dict; detail[key] = value
+  let d1 := match dget d (S "author_detail") with
+    | some (.ref i) => setInNth d (S "authors") i k v
+    | some (.det kv) => dset d (S "author_detail") (.det (lset kv k v))
+    | some (.d kv) => dset d (S "author_detail") (.det (lset (kv.map fun p => (p.1, some p.2)) k v))
+    | _ => dset d (S "author_detail") (.det [(k, v)])
+  let d2 := syncAuthor o d1
+  -- context.setdefault("authors", [{}]); the last item gets the key
+  let d3 := if (dget d2 (S "authors")).isNone then dset d2 (S "authors") (.l [[]]) else d2
+  setInLast d3 (S "authors") k v
+
+/-- `_save_contributor(key, value)` -/
+def saveContributor (d : D) (k : Str) (v : Option Str) : D :=
+  let d1 := if (dget d (S "contributors")).isNone then dset d (S "contributors") (.l [[]]) else d
+  setInLast d1 (S "contributors") k v
+
+/-- `self.pop(name)` for an element pushed with `expecting_text = 0`: the stripped joined text, nothing stored -/
+def popPlain (s : MSt) (el : Str) : Option Str × MSt :=
+  match s.stack with
+  | top :: rest => if top.name != el then (none, s) else (some (stripS top.pieces.flatten), ⟨s.c, rest⟩)
+  | [] => (none, s)
+
+def startAuthorKinds (c : Core) (kind : Str) (attrsD : List (Str × Str)) : Option (Core × List Elem) :=
+  if kind == S "author" then
+    -- inauthor = 1; push("author", 1); context.setdefault("authors", []); context["authors"].append({}) — when that raises AttributeError the fallback of
+    -- unknown_starttag runs AFTER the push: a second push, or the attribute dict stored under `author`
+    some (match appendEmpty (contextD c) (S "authors") with
+      | some d1 => (putContext { c with inauthor := true } d1, [⟨S "author", true, []⟩])
+      | none => if (dropDecls attrsD).isEmpty then ({ c with inauthor := true }, [⟨S "author", true, []⟩, ⟨S "author", true, []⟩])
+                else (putContext { c with inauthor := true } (fset (contextD c) (S "author") (.d (dropDecls attrsD))), [⟨S "author", true, []⟩]))
+  else if kind == S "contributor" then
+    some (match appendEmpty (contextD c) (S "contributors") with
+      | some d1 => (putContext { c with incontributor := true } d1, [⟨S "contributor", false, []⟩])
+      | none => if (dropDecls attrsD).isEmpty then ({ c with incontributor := true }, [⟨S "contributor", true, []⟩])
+                else (putContext { c with incontributor := true } (fset (contextD c) (S "contributor") (.d (dropDecls attrsD))), []))
+  else if kind == S "name" then some (c, [⟨S "name", false, []⟩])
+  else if kind == S "email" then some (c, [⟨S "email", false, []⟩])
+  else if kind == S "url" then some (c, [⟨S "href", true, []⟩])
+  else none
+
+/-- where `_end_name` / `_end_email` / `_end_url` put their value (`inpublisher` and `intextinput` are never set inside the model's domain) -/
+def savePart (o : Ops) (c : Core) (k : Str) (v : Option Str) (allowContributor : Bool := true) : Core :=
+  if c.inauthor then putContext c (saveAuthor o (contextD c) k v)
+  else if c.incontributor && allowContributor then putContext c (saveContributor (contextD c) k v)
+  else c
+
+def endAuthorKinds (o : Ops) (s0 : MSt) (kind : Str) : Option MSt :=
+  if kind == S "author" then
+    let s1 := pop o s0 (S "author")
+    some ⟨putContext { s1.c with inauthor := false } (syncAuthor o (contextD s1.c)), s1.stack⟩
+  else if kind == S "contributor" then
+    let s1 := pop o s0 (S "contributor")
+    some ⟨{ s1.c with incontributor := false }, s1.stack⟩
+  else if kind == S "name" then
+    let r := popPlain s0 (S "name")
+    some ⟨savePart o r.2.c (S "name") r.1, r.2.stack⟩
+  else if kind == S "email" then
+    let r := popPlain s0 (S "email")
+    some ⟨savePart o r.2.c (S "email") r.1, r.2.stack⟩
+  else if kind == S "url" then
+    let s1 := pop o s0 (S "href")
+    some ⟨savePart o s1.c (S "href") (popValue o s0 (S "href")), s1.stack⟩
+  else none
+
 def startLG (o : Ops) (c : Core) (kind : Str) (attrsD : List (Str × Str)) : Except Str (Core × List Elem) :=
   if kind == S "link" then startLink o c attrsD
   else if kind == S "guid" then
     .ok ({ c with guidislink := ((sget attrsD (S "ispermalink")).getD (S "true") == S "true") }, [⟨S "id", true, []⟩])
   else if kind == S "category" then .ok (startCategory c attrsD)
   else if kind == S "enclosure" then .ok (startEnclosure c attrsD, [])
-  else .error (S "unknown stage-4 kind")
+  else match startAuthorKinds c kind attrsD with
+  | some r => .ok r
+  | none => .error (S "unknown stage-4 kind")
 
 /-- `_end_guid`: `value = self.pop("id"); self._save("guidislink", self.guidislink and "link" not in context); if self.guidislink: self._save("link", value)` -/
 def endGuidCore (o : Ops) (s0 : MSt) : Core :=
@@ -621,7 +770,9 @@ def endLG (o : Ops) (s0 : MSt) (kind : Str) : Outcome :=
   else if kind == S "enclosure" then
     -- no `_end_enclosure`: `unknown_endtag` falls back to `self.pop("enclosure")`
     .ok ⟨endFinish o (pop o s0 (S "enclosure")).c, (pop o s0 (S "enclosure")).stack⟩
-  else .unmodelled (S "unknown stage-4 kind")
+  else match endAuthorKinds o s0 kind with
+  | some s1 => .ok ⟨endFinish o s1.c, s1.stack⟩
+  | none => .unmodelled (S "unknown stage-4 kind")
 
 /-- the dispatch of `unknown_starttag` on the stack-free part of the state: structural handler, other
 handler (outside the model), or the fallback for elements without a handler (mixin.py:305-320).
